@@ -183,3 +183,178 @@ pub fn c11(tier: Tier) -> i32 {
 }
 
 pub type _Unused = (BTreeMap<u8, u8>, Value);
+
+// ---------------------------------------------------------------------------------------------
+// C19 WHERE partitions rows by truth value
+// ---------------------------------------------------------------------------------------------
+
+fn c19_atoms(has_b: bool, has_u: bool) -> Vec<String> {
+    let mut v: Vec<String> = vec![
+        "a.v = 1", "a.v < 2", "a.v IS NULL", "a:A", "a.v IN [1, null]", "a.v IN []", "a.v IN [1, 2]",
+        "toString(a.v) STARTS WITH '1'", "toString(a.v) ENDS WITH 'x'", "toString(a.v) CONTAINS 'x'",
+        "size(labels(a)) > 1", "coalesce(a.v, 0) = 0", "toInteger(a.v) = 1", "exists((a)-->())", "exists((a)<-[:R]-())",
+        "a.uid + 1 > 2", "a.uid * 2 = 2", "a.uid % 2 = 0", "a.v = a.v", "a.v <> 1", "null", "true", "a.v = null",
+        "a.uid IN [a.v, 2]", "size([x IN [a.v, 1] WHERE x = 1]) = 1", "CASE WHEN a.v = 1 THEN true WHEN a.v = 2 THEN null ELSE false END",
+    ]
+    .into_iter()
+    .map(String::from)
+    .collect();
+    if has_b {
+        for s in ["b.v = a.v", "a.v <> b.v", "a.v < b.v", "b:A", "b.v IS NOT NULL", "a.uid < b.uid", "coalesce(b.v, a.v) = 1"] {
+            v.push(s.to_string());
+        }
+    }
+    if has_u {
+        for s in ["u = 1", "u < a.uid", "u IS NULL", "u IN [a.v]"] {
+            v.push(s.to_string());
+        }
+    }
+    v
+}
+
+pub fn c19(tier: Tier) -> i32 {
+    let rep = Report::new("C19", tier);
+    rep.rule("base queries Q = {MATCH / OPTIONAL MATCH over node, 1-hop (directed, undirected, typed, variable-length) and 2-hop patterns, optionally followed by UNWIND [1,2,null]} x predicates p = {atoms over comparisons, IN, STARTS WITH / ENDS WITH / CONTAINS, size, coalesce, toInteger, pattern existence, arithmetic, CASE, null literals; NOT atom; atom AND / OR / XOR atom over a sub-alphabet} on all graphs of the scope; for each (Q, p, graph): rows(Q WHERE p) + rows(Q WHERE NOT (p)) + rows(Q WHERE (p) IS NULL) must equal rows(Q) as multisets, both with the predicate attached to a non-optional MATCH and applied after WITH; non-trivial = triples where Q has rows and at least two of the three parts are non-empty");
+    let full = tier == Tier::Thorough;
+    let prefixes: Vec<(&str, bool, bool, &str)> = vec![
+        // (text, has_b, has_u, returned scalars)
+        ("MATCH (a)", false, false, "a.uid AS c0"),
+        ("MATCH (a)-[r]->(b)", true, false, "a.uid AS c0, b.uid AS c1, type(r) AS c2"),
+        ("MATCH (a)-[r]-(b)", true, false, "a.uid AS c0, b.uid AS c1, type(r) AS c2"),
+        ("MATCH (a)<-[:R]-(b)", true, false, "a.uid AS c0, b.uid AS c1"),
+        ("MATCH (a)-[*1..2]->(b)", true, false, "a.uid AS c0, b.uid AS c1"),
+        ("MATCH (a) OPTIONAL MATCH (a)-[:R]->(b)", true, false, "a.uid AS c0, b.uid AS c1"),
+        ("MATCH (a) UNWIND [1, 2, null] AS u", false, true, "a.uid AS c0, u AS c1"),
+        ("MATCH (a)-[r]->(b)-[s]->(c)", true, false, "a.uid AS c0, b.uid AS c1, c.uid AS c2"),
+        ("OPTIONAL MATCH (a:A)-[r:S]->(b)", true, false, "a.uid AS c0, b.uid AS c1"),
+    ];
+    let vals = vec![None, Some(CV::Int(1)), Some(CV::Int(2)), Some(CV::Str("x".into()))];
+    let mut graphs = if full { graphs_g2(&label_sets_full(), &vals, 2) } else { graphs_g2(&label_sets_quick(), &vals[..3].to_vec(), 1) };
+    if !full {
+        graphs.extend(graphs_g2(&[vec![], vec!["A"]], &[None, Some(CV::Str("x".into()))], 2).into_iter().filter(|g| g.rels.len() == 2));
+    }
+    graphs.extend(graphs_rich());
+    // build the query families
+    struct Fam {
+        base: String,
+        parts: [String; 3],
+        pred: String,
+        prefix: String,
+        where_style: &'static str,
+    }
+    let mut fams: Vec<Fam> = Vec::new();
+    for (prefix, has_b, has_u, ret) in &prefixes {
+        let atoms = c19_atoms(*has_b, *has_u);
+        let mut preds: Vec<String> = atoms.clone();
+        for a in &atoms {
+            preds.push(format!("NOT ({a})"));
+        }
+        let sub: Vec<&String> = atoms.iter().take(if full { 14 } else { 8 }).chain(atoms.iter().skip(atoms.len().saturating_sub(4))).collect();
+        for a in &sub {
+            for b in &sub {
+                for op in ["AND", "OR", "XOR"] {
+                    preds.push(format!("({a}) {op} ({b})"));
+                }
+            }
+        }
+        let single_match = !prefix.contains("OPTIONAL") && !prefix.contains("UNWIND");
+        for p in preds {
+            // style 1: filter after WITH *
+            fams.push(Fam {
+                base: format!("{prefix} RETURN {ret}"),
+                parts: [format!("{prefix} WITH * WHERE {p} RETURN {ret}"), format!("{prefix} WITH * WHERE NOT ({p}) RETURN {ret}"), format!("{prefix} WITH * WHERE ({p}) IS NULL RETURN {ret}")],
+                pred: p.clone(),
+                prefix: prefix.to_string(),
+                where_style: "WITH",
+            });
+            if single_match {
+                fams.push(Fam {
+                    base: format!("{prefix} RETURN {ret}"),
+                    parts: [format!("{prefix} WHERE {p} RETURN {ret}"), format!("{prefix} WHERE NOT ({p}) RETURN {ret}"), format!("{prefix} WHERE ({p}) IS NULL RETURN {ret}")],
+                    pred: p,
+                    prefix: prefix.to_string(),
+                    where_style: "MATCH",
+                });
+            }
+        }
+    }
+    rep.set("query_families", json!(fams.len()));
+    rep.set("graphs", json!(graphs.len()));
+    let prep = |q: &str| prepare(q).map_err(|e| e.to_string());
+    let prepared: Vec<(Result<PreparedQuery, String>, [Result<PreparedQuery, String>; 3])> = fams.par_iter().map(|f| (prep(&f.base), [prep(&f.parts[0]), prep(&f.parts[1]), prep(&f.parts[2])])).collect();
+    let rejected = prepared.iter().filter(|p| p.0.is_err() || p.1.iter().any(|x| x.is_err())).count();
+    rep.set("families_rejected_at_compile_time", json!(rejected));
+    let cap = tier.pick(50.0, 3000.0);
+    graphs.par_iter().for_each(|g| {
+        if rep.elapsed() > cap {
+            rep.not_exhaustive("wall cap hit; remaining graphs skipped");
+            return;
+        }
+        let qdb = QDb::new();
+        if g.build(qdb.db()).is_err() {
+            return;
+        }
+        rep.add_states(1);
+        let snap = qdb.db().snapshot();
+        let params = Params::new();
+        let run = |p: &PreparedQuery| -> Result<Vec<CRow>, String> {
+            catch(|| -> Result<Vec<CRow>, String> {
+                let mut rows = Vec::new();
+                for r in p.execute_streaming(&snap, &params) {
+                    let r = r.map_err(|e| e.to_string())?;
+                    rows.push(r.columns().iter().map(|(_, v)| canon(&snap, v)).collect());
+                }
+                Ok(rows)
+            })
+            .unwrap_or_else(|p| Err(p))
+        };
+        let mut base_cache: BTreeMap<&str, Result<Vec<CRow>, String>> = BTreeMap::new();
+        for (f, (pb, pp)) in fams.iter().zip(&prepared) {
+            let (Ok(pb), [Ok(p0), Ok(p1), Ok(p2)]) = (pb, pp) else { continue };
+            let base = base_cache.entry(f.base.as_str()).or_insert_with(|| run(pb)).clone();
+            let Ok(base) = base else { continue };
+            rep.add_transitions(3);
+            rep.add_traces(3);
+            let parts = [run(p0), run(p1), run(p2)];
+            let mk = |class: &str, detail: String| {
+                let mut kinds_v = vec![f.where_style.to_string(), f.prefix.clone()];
+                for k in [" IN ", "STARTS WITH", "ENDS WITH", "CONTAINS", "size(", "coalesce", "toInteger", "exists(", "CASE", " XOR ", " OR ", " AND ", "NOT ", "IS NULL", " % ", "null"] {
+                    if f.pred.contains(k) {
+                        kinds_v.push(format!("pred:{}", k.trim()));
+                    }
+                }
+                Violation { class: class.to_string(), kinds: kinds_v, replay: json!({"engine":"query","base": f.base, "predicate": f.pred, "style": f.where_style, "graph": g.show()}), detail }
+            };
+            if parts.iter().any(|p| p.is_err()) {
+                if parts.iter().all(|p| p.is_err()) {
+                    rep.outcome("predicate_raises_in_all_parts");
+                } else {
+                    rep.outcome("predicate_raises_in_some_parts");
+                    rep.violation(mk("error_in_some_parts_only", format!("{:?}", parts.iter().map(|p| p.as_ref().map(|r| r.len()).map_err(|e| truncate(e, 60))).collect::<Vec<_>>())));
+                }
+                continue;
+            }
+            let mut union: Vec<CRow> = Vec::new();
+            let mut nonempty = 0;
+            for p in &parts {
+                let r = p.as_ref().unwrap();
+                if !r.is_empty() {
+                    nonempty += 1;
+                }
+                union.extend(r.iter().cloned());
+            }
+            if nonempty >= 2 {
+                rep.add_nontrivial(1);
+            }
+            if same_multiset(&union, &base) {
+                rep.outcome("partition");
+            } else {
+                let class = if union.len() < base.len() { "rows_lost" } else if union.len() > base.len() { "rows_duplicated" } else { "rows_changed" };
+                rep.outcome(class);
+                rep.violation(mk(class, format!("true {} + false {} + null {} vs all {}", show_rows(parts[0].as_ref().unwrap()), show_rows(parts[1].as_ref().unwrap()), show_rows(parts[2].as_ref().unwrap()), show_rows(&base))));
+            }
+        }
+    });
+    rep.sample(json!({"base": fams[fams.len() / 2].base, "predicate": fams[fams.len() / 2].pred, "graph": graphs[graphs.len() / 2].show()}));
+    rep.finish()
+}
